@@ -755,12 +755,11 @@ pub fn run(opts: &Opts) -> i32 {
     }
 
     let leak_listed = is_known(&known, PROP, KNOWN_KEY_LEAK).is_some();
-    let (results, viol) = run_batch(n, opts.workers, move |i| job(seed, i, thorough, leak_listed));
     let mut agg = JobOut::default();
-    let mut hist_nt: HashSet<u64> = HashSet::new();
-    let mut prog_nt: HashSet<u64> = HashSet::new();
+    let mut hist_nt = Distinct::new();
+    let mut prog_nt = Distinct::new();
     let mut samples = Vec::new();
-    for (_, r) in &results {
+    let (jobs_done, viol) = run_batch_chunked(n, opts.workers, move |i| job(seed, i, thorough, leak_listed), |_, r| {
         agg.hist += r.hist;
         agg.hist_ops += r.hist_ops;
         agg.hist_commits += r.hist_commits;
@@ -779,7 +778,7 @@ pub fn run(opts: &Opts) -> i32 {
                 samples.push(s.clone());
             }
         }
-    }
+    });
     let wall = t0.elapsed().as_secs_f64();
     let mut violations = 0;
     let mut code = 0;
@@ -830,8 +829,8 @@ pub fn run(opts: &Opts) -> i32 {
             "vm_max_aux_depth": agg.shadow.max_aux,
             "vm_runs_where_model_was_capped_by_depth": agg.shadow.model_capped,
         }));
-        extra.insert("runs_per_hour".into(), json!(((results.len() as f64) / wall.max(1e-9) * 3600.0) as u64));
-        extra.insert("seeds".into(), json!(format!("derive({}, 0..{})", seed, results.len())));
+        extra.insert("runs_per_hour".into(), json!(((jobs_done as f64) / wall.max(1e-9) * 3600.0) as u64));
+        extra.insert("seeds".into(), json!(format!("derive({}, 0..{})", seed, jobs_done)));
         extra.insert("real_vs_stub".into(), json!({
             "real": ["fancy_regex::vm::State (through the verif-hooks wrapper)", "fancy_regex::vm::run", "regex-automata delegates"],
             "model": ["whole-state-copy reference model (sim/src/shadow.rs)"],
